@@ -113,7 +113,9 @@ def sim_process(ctx):
     recs = None
     for vid, d in ex0.vardefs.items():
         if pmatch("tlog.get_log_records(Q_l, Q_n)", d) == {"l": level, "n": ns}:
-            recs = [("v", n, vid) for n in ("records",)][0]
+            # the variable term with this id (its local name is irrelevant)
+            cands = {x for ex_ in fn.exs for f_ in ex_.facts for fr in f_.frames for y in fr[1:] if isinstance(y, tuple) for x in subterms(y) if isinstance(x, tuple) and len(x) == 3 and x[0] == "v" and x[2] == vid}
+            recs = sorted(cands)[0] if cands else ("v", "records", vid)
     ctx.check(recs is not None, "C34.sim-records", fn.site, "make_logging_process.records", found="get_log_records(level, namespace_regexp)" if recs else "not found", required="the process reports the records selected by the requested level and namespace")
     if recs is None:
         return
@@ -122,7 +124,8 @@ def sim_process(ctx):
     ctx.floor("C34", "report sites", len(logs), 1, fn.site)
     # reach condition of the report: trigger sampled true
     def trig_atoms(f):
-        return [a for a in atoms_of(f) if a[0] == "v" and a[1] == "trigger"]
+        # the sampled trigger: a variable defined as next(<sample iterator>) that guards the report
+        return [a for a in atoms_of(f) if a[0] == "v" and any(ex_.vardefs.get(a[2], ("x",))[0] == "call" and ex_.vardefs[a[2]][1] == ("n", "next") for ex_ in fn.exs)]
 
     r_log = fn.reach(Effect, lambda e: is_call_a(e.call, "log") and len(loops(e)) == 1 and loops(e)[0][1] == recs)
     ta = trig_atoms(r_log)
@@ -162,7 +165,7 @@ def sim_process(ctx):
                         g = m["g"]
                         if g[0] == "lc":
                             r = g[3][0][0]
-                            ok = g[2] == ("op", "+", ("tuple", ("a", r, "trigger")), ("a", r, "fields")) and tstr(g[3][0][1]) == "records"
+                            ok = g[2] == ("op", "+", ("tuple", ("a", r, "trigger")), ("a", r, "fields")) and g[3][0][1][0] == "v" and pmatch("tlog.get_log_records(Q_l, Q_n)", ex.vardefs.get(g[3][0][1][2], ("c", None))) is not None
     ctx.check(ok, "C34.sim-sample-order", fp.site, "log_process.sampled", found="(record.trigger,) + record.fields per record" if ok else "different order", required="sampled per record, in record order: trigger, then the fields (the order handle_logs consumes)")
     calls = [e for ex in fp.exs for e in ex.of(Effect) if is_call_a(e.call, "log") and len(loops(e)) == 2]
     ctx.check(bool(calls), "C34.sim-handle-called", fp.site, "log_process.handle_logs", found=f"{len(calls)} report site(s) reached from the sampling loop", required="sampled values are handed to handle_logs every triggered cycle", nontrivial=False)
